@@ -368,6 +368,10 @@ def versioned_candidates(kinds=('repo',)):
     @st.composite
     def gen(draw):
         v = draw(T.version())
+        if draw(st.integers(0, 9)) == 0:
+            # a text that sits on a version guard, with one of the two versions around it
+            e = draw(T.version_sensitive())
+            return {'version': draw(st.sampled_from(e['versions'])), 'code': e['text'] + '\n'}
         if draw(st.integers(0, 4)) == 0:
             code = draw(derived_program(v))
         else:
